@@ -334,11 +334,22 @@ pub fn request_of(config: &RouterConfig, d: &Value) -> Option<Request> {
 // ------------------------------------------------------------------------------------------------
 
 const SCHEMES: &[&str] = &["http", "https", ""];
-const HOSTS: &[&str] = &["a.com", "A.com", "b.com", "", "www.a.com", "@l.com", "@s.a.com", "a@d.com", "@x", "shop-@d.a.com"];
-const REQ_HOSTS: &[&str] = &["a.com", "A.com", "b.com", "www.a.com", "x.com", "abc.com", "w.a.com", "a1.com", "a12.com", "shop-7.a.com", "SHOP-7.A.COM", ""];
-const PATHS: &[&str] =
-    &["/", "/a", "/A", "/a/b", "/a/@d", "/a/@l", "/a/@s", "/a/@s/c", "/a/@d/c", "/@x", "/a@x", "/b/@d-@l", "/a/b/c", "/a/1", "/a.b", "/x_y"];
-const REQ_PATHS: &[&str] = &["/", "/a", "/A", "/a/b", "/a/1", "/a/12", "/a/x", "/a/B", "/a/1/c", "/a/b/c", "/b/1-x", "/b/1-", "/a.b", "/x_y", "/zzz", "/a/"];
+// upper-case letters also in the LITERAL part of marker patterns: under the ignore-case flags the
+// regex trees must match them case-insensitively (and keep doing so after having been emptied)
+const HOSTS: &[&str] = &[
+    "a.com", "A.com", "b.com", "", "www.a.com", "@l.com", "@s.a.com", "a@d.com", "@x", "shop-@d.a.com", "A@d.com", "Shop-@d.A.com", "@l.COM", "B.com",
+];
+const REQ_HOSTS: &[&str] = &[
+    "a.com", "A.com", "b.com", "www.a.com", "x.com", "abc.com", "w.a.com", "a1.com", "a12.com", "shop-7.a.com", "SHOP-7.A.COM", "", "A1.com", "abc.COM", "B.COM",
+];
+const PATHS: &[&str] = &[
+    "/", "/a", "/A", "/a/b", "/a/@d", "/a/@l", "/a/@s", "/a/@s/c", "/a/@d/c", "/@x", "/a@x", "/b/@d-@l", "/a/b/c", "/a/1", "/a.b", "/x_y", "/A/@d", "/A/B", "/Ab@x",
+    "/B/@d-@l", "/a/@s/C",
+];
+const REQ_PATHS: &[&str] = &[
+    "/", "/a", "/A", "/a/b", "/a/1", "/a/12", "/a/x", "/a/B", "/a/1/c", "/a/b/c", "/b/1-x", "/b/1-", "/a.b", "/x_y", "/zzz", "/a/", "/A/1", "/A/B", "/AB", "/abq",
+    "/B/1-x", "/a/x/C",
+];
 const METHODS: &[&str] = &["GET", "POST", "PUT", "get", "DELETE"];
 const HNAMES: &[&str] = &["X-A", "x-a", "X-B", "Accept"];
 const HVALUES: &[&str] = &["", "v", "V", "val", "value", "al", "x", "v-@d", "V-@d", "@l"];
@@ -391,7 +402,7 @@ fn gen_req_ip(rng: &mut Prng) -> Value {
     }
 }
 
-fn gen_range(rng: &mut Prng, pool: &[u64]) -> Value {
+pub fn gen_range(rng: &mut Prng, pool: &[u64]) -> Value {
     let a = *rng.pick(pool);
     let b = *rng.pick(pool);
     match rng.below(5) {
@@ -402,7 +413,7 @@ fn gen_range(rng: &mut Prng, pool: &[u64]) -> Value {
     }
 }
 
-fn gen_header_cond(rng: &mut Prng) -> Value {
+pub fn gen_header_cond(rng: &mut Prng) -> Value {
     let kind = *rng.pick(&HEADER_KINDS);
     let name = *rng.pick(HNAMES);
     let value: Value = if kind == "is_defined" || kind == "is_not_defined" {
@@ -506,7 +517,86 @@ pub fn gen_rules(rng: &mut Prng, n: usize, prefix: &str) -> Vec<Value> {
         }
         rules.push(r);
     }
+    if rules.len() >= 2 && rng.chance(1, 6) {
+        shared_condition_pair(rng, &mut rules);
+    }
     rules
+}
+
+/// Rewrites two rules of the list into the shape "two condition groups sharing a condition": one rule
+/// carries the conditions {c1, c2}, the other only {c2} (or only {c1}), all other triggers equal, so that
+/// the per-request condition memo of the header / date-time layer (and its `trace` twin) is consulted for a
+/// condition first met in a group that may already have failed.
+pub fn shared_condition_pair(rng: &mut Prng, rules: &mut [Value]) {
+    let n = rules.len();
+    let i = rng.below(n);
+    let mut j = rng.below(n);
+    if i == j {
+        j = (i + 1) % n;
+    }
+    let (id_j, rank_j) = (rules[j]["id"].clone(), rules[j]["rank"].clone());
+    let mut base = rules[i].clone();
+    for k in ["ips", "methods", "exclude", "scheme"] {
+        if rng.chance(2, 3) {
+            base.as_object_mut().unwrap().remove(k);
+        }
+    }
+    let (mut both, mut one) = (base.clone(), base);
+    if rng.chance(2, 3) {
+        // header groups: two conditions on different header names
+        let c1 = gen_header_cond(rng);
+        let mut c2 = gen_header_cond(rng);
+        for _ in 0..10 {
+            if c2["name"].as_str().map(|s| s.to_lowercase()) != c1["name"].as_str().map(|s| s.to_lowercase()) {
+                break;
+            }
+            c2 = gen_header_cond(rng);
+        }
+        both["headers"] = if rng.chance(1, 2) { json!([c1, c2]) } else { json!([c2, c1]) };
+        one["headers"] = json!([if rng.chance(1, 2) { c1 } else { c2 }]);
+    } else {
+        // date-time groups: a date window (often not containing the instant) and a week-day / time-of-day condition
+        for r in [&mut both, &mut one] {
+            let o = r.as_object_mut().unwrap();
+            o.remove("datetime");
+            o.remove("time");
+            o.remove("weekdays");
+        }
+        let window = json!([gen_range(rng, INSTANTS)]);
+        let wd = json!([rng.below(7), rng.below(7)]);
+        let tod = json!([gen_range(rng, TIMES)]);
+        match rng.below(3) {
+            0 => {
+                both["datetime"] = window;
+                both["weekdays"] = wd.clone();
+                one["weekdays"] = wd;
+            }
+            1 => {
+                both["datetime"] = window;
+                both["time"] = tod.clone();
+                one["time"] = tod;
+            }
+            _ => {
+                both["time"] = tod;
+                both["weekdays"] = wd.clone();
+                one["weekdays"] = wd;
+            }
+        }
+    }
+    one["id"] = id_j;
+    one["rank"] = rank_j;
+    if rng.chance(1, 2) {
+        rules[i] = both;
+        rules[j] = one;
+    } else {
+        let (id_i, rank_i) = (both["id"].clone(), both["rank"].clone());
+        both["id"] = one["id"].clone();
+        both["rank"] = one["rank"].clone();
+        one["id"] = id_i;
+        one["rank"] = rank_i;
+        rules[i] = one;
+        rules[j] = both;
+    }
 }
 
 fn instantiate(rng: &mut Prng, pat: &str) -> String {
@@ -553,8 +643,10 @@ pub fn gen_request(rng: &mut Prng, rules: &[Value]) -> Value {
     match base.as_ref().and_then(|b| b.get("host")).and_then(|s| s.as_str()) {
         Some(h) if !h.is_empty() && !miss(rng) => {
             let mut h = instantiate(rng, h);
-            if rng.chance(1, 6) {
-                h = h.to_uppercase();
+            match rng.below(8) {
+                0 | 1 => h = h.to_uppercase(),
+                2 | 3 => h = h.to_lowercase(),
+                _ => {}
             }
             q.insert("host".into(), json!(h));
         }
@@ -568,8 +660,10 @@ pub fn gen_request(rng: &mut Prng, rules: &[Value]) -> Value {
     let path = match base.as_ref().and_then(|b| b.get("path")).and_then(|s| s.as_str()) {
         Some(p) if !miss(rng) => {
             let mut p = instantiate(rng, p);
-            if rng.chance(1, 8) {
-                p = p.to_uppercase();
+            match rng.below(8) {
+                0 => p = p.to_uppercase(),
+                1 | 2 => p = p.to_lowercase(),
+                _ => {}
             }
             p
         }
